@@ -545,7 +545,7 @@ func init() {
 func stdlibSourceFuncs() []string {
 	var out []string
 	re := regexp.MustCompile(`(?m)^var (\w+Func) = function\.New`)
-	files, _ := filepath.Glob("/repo/cty/function/stdlib/*.go")
+	files, _ := filepath.Glob(repoDir() + "/cty/function/stdlib/*.go")
 	for _, f := range files {
 		if strings.HasSuffix(f, "_test.go") {
 			continue
